@@ -102,7 +102,7 @@ impl Prop for C07Prop {
         "C07"
     }
     fn rule(&self) -> String {
-        "eval_decimal expressions over + - * unary minus (random trees, depth <=5) and single a/b, a%b, mod(a,b) nodes, on decimal literals with 1..29 significant digits, scale 0..28, magnitudes 1e-28..7.9e28 (boundary literals with 27/28/29 digits, 0.1/0.2-style fractions, leading/trailing zeros, .5 and 5. forms); exhaustive block: 32-literal pool^2 x {+ - * / % mod} with signs. Oracle: exact decimal arithmetic on big integers: every intermediate representable (coefficient < 2^96, scale <= 28) => result must equal the exact value; intermediate beyond the Decimal range => Err; in range but needing rounding => unspecified (counted); division exact when representable else within 1e-27*max(1,|a/b|) (checked by cross-multiplication); zero divisor => Err. non-trivial = a literal with a fractional digit, or >=20 significant digits, or an Err outcome; distinct by input.".into()
+        "eval_decimal expressions over + - * unary minus (random trees, depth <=5) and single a/b, a%b, mod(a,b) nodes, on decimal literals with 1..29 significant digits, scale 0..28, magnitudes 1e-28..7.9e28 (boundary literals with 27/28/29 digits, 0.1/0.2-style fractions, leading/trailing zeros, .5 and 5. forms); long chains (2..512 operands of + - * / % with 0.1, 1.5, MAX and 1e-28 operands: 0.1+0.1+… 130 terms is exactly 13); exhaustive block: 32-literal pool^2 x {+ - * / % mod} with signs. Oracle: exact decimal arithmetic on big integers: every intermediate representable (coefficient < 2^96, scale <= 28) => result must equal the exact value; intermediate beyond the Decimal range => Err; in range but needing rounding => unspecified (counted); division exact when representable else within 1e-27*max(1,|a/b|) (checked by cross-multiplication); zero divisor => Err. non-trivial = a literal with a fractional digit, or >=20 significant digits, or an Err outcome; distinct by input.".into()
     }
     fn assumptions(&self) -> Vec<String> {
         vec!["harness/src/big.rs (hand-written bigint) is trusted; it is self-tested against u128 arithmetic and by multiplication/division identities".into()]
@@ -110,11 +110,16 @@ impl Prop for C07Prop {
     fn subs(&self, tier: Tier) -> Vec<Sub> {
         vec![
             Sub { name: "binary", kind: SubKind::Enum { count: binary_cases().len() as u64 } },
+            Sub { name: "long", kind: SubKind::Enum { count: super::long::all(true).iter().filter(|x| x.0 == Ev::Dec).count() as u64 } },
             Sub { name: "tree", kind: SubKind::Random { cases: tier.pick(300_000, 15_000_000), len: 400 } },
             Sub { name: "divrem", kind: SubKind::Random { cases: tier.pick(200_000, 10_000_000), len: 100 } },
         ]
     }
-    fn gen_enum(&self, _sub: &str, idx: u64, _tier: Tier) -> Option<Case> {
+    fn gen_enum(&self, sub: &str, idx: u64, _tier: Tier) -> Option<Case> {
+        if sub == "long" {
+            let s = super::long::all(true).iter().filter(|x| x.0 == Ev::Dec).nth(idx as usize)?.1.clone();
+            return Some(Case::new(Ev::Dec, s, Val::D(dec("0"))));
+        }
         Some(Case::new(Ev::Dec, binary_cases().get(idx as usize)?.clone(), Val::D(dec("0"))))
     }
     fn gen(&self, sub: &str, c: &mut dyn Choices) -> Option<Case> {
